@@ -150,3 +150,30 @@ Fixpoint ice_state (block : N) (ops : list iop) (w : wst) : wst :=
 (* every chunk obtained by one download iteration is at most the block that fits() checked *)
 Definition chunks_within (block : N) (ops : list iop) : Prop :=
   forall c, In (IDownload c) ops -> c <= block.
+
+(* ---- the producer side of PatchedIceCastClient in detail *)
+
+Fixpoint ice2_trace (block meta : N) (ops : list iop) (s : ist) : list (op * res) :=
+  match ops with
+  | [] => []
+  | o :: t =>
+      let '(r, s') := ice2_step block meta o s in
+      match iop_op o with
+      | Some o' => (o', r) :: ice2_trace block meta t s'
+      | None => ice2_trace block meta t s'
+      end
+  end.
+
+Fixpoint ice2_state (block meta : N) (ops : list iop) (s : ist) : ist :=
+  match ops with
+  | [] => s
+  | o :: t => ice2_state block meta t (snd (ice2_step block meta o s))
+  end.
+
+(* a well-formed ICY body: complete frames of m audio bytes (offsets o, o+1, ..), a length byte
+   l and a metadata block of 16*l bytes *)
+Fixpoint icy_body (m o : N) (ls : list N) : data :=
+  match ls with
+  | [] => []
+  | l :: t => (o, m) :: (1000 + l, 1) :: (2000, 16 * l) :: icy_body m (o + m) t
+  end.
